@@ -3,7 +3,7 @@
    regenerated text with these: a change there means the model has to be read against the code again. -/
 namespace Relic.Magic.Expected
 
-def mzBody : String := "if blob, _ := br.Peek(0x3e); len(blob) == 0x3e { reloc := binary.LittleEndian.Uint16(blob[0x3c:0x3e]) if blob, err := br.Peek(int(reloc) + 4); err == nil { if bytes.Equal(blob[reloc:reloc+4], []byte(\"PE\\x00\\x00\")) { return FileTypePECOFF } } }"
+def mzBody : String := "if blob, _ := br.Peek(0x3e); len(blob) == 0x3e { reloc := int(binary.LittleEndian.Uint16(blob[0x3c:0x3e])) if blob, err := br.Peek(reloc + 4); err == nil { if bytes.Equal(blob[reloc:reloc+4], []byte(\"PE\\x00\\x00\")) { return FileTypePECOFF } } }"
 
 def getSigStyle : String := "func GetSigStyle(filename string) (PsSigStyle, bool) { style, ok := psExtMap[filepath.Ext(filename)] return style, ok }"
 
@@ -13,7 +13,7 @@ def helpers : List (String × String) := [
   ("atPosition", "func atPosition(br *bufio.Reader, blob []byte, n int) bool { l := n + len(blob) d, _ := br.Peek(l) if len(d) < l { return false } return bytes.Equal(d[n:], blob) }"),
   ("isTar", "func isTar(br *bufio.Reader) bool { return atPosition(br, []byte(\"ustar\"), 257) }"),
   ("detectTar", "func detectTar(r io.Reader) FileType { return FileTypeUnknown }"),
-  ("DetectCompressed", "func DetectCompressed(f *os.File) (FileType, CompressionType) { br := bufio.NewReader(f) ftype := FileTypeUnknown switch { case hasPrefix(br, []byte{0x1f, 0x8b}): zr, err := gzip.NewReader(br) if err == nil { zbr := bufio.NewReader(zr) if isTar(zbr) { ftype = detectTar(zbr) } } return ftype, CompressedGzip case hasPrefix(br, []byte(\"\\xfd7zXZ\\x00\")): zr, err := xz.NewReader(br, 0) if err == nil { zbr := bufio.NewReader(zr) if isTar(zbr) { ftype = detectTar(zbr) } } return ftype, CompressedXz case hasPrefix(br, []byte{0x50, 0x4b, 0x03, 0x04}): return detectZip(f), CompressedNone } return Detect(br), CompressedNone }"),
+  ("DetectCompressed", "func DetectCompressed(f *os.File) (FileType, CompressionType) { br := bufio.NewReader(f) ftype := FileTypeUnknown switch { case hasPrefix(br, []byte{0x1f, 0x8b}): return ftype, CompressedGzip case hasPrefix(br, []byte(\"\\xfd7zXZ\\x00\")): return ftype, CompressedXz case hasPrefix(br, []byte{0x50, 0x4b, 0x03, 0x04}): return detectZip(f), CompressedNone } return Detect(br), CompressedNone }"),
   ("detectZip", "func detectZip(f *os.File) FileType { size, err := f.Seek(0, io.SeekEnd) if err != nil { return FileTypeUnknown } inz, err := zip.NewReader(f, size) if err != nil { return FileTypeUnknown } var isJar bool for _, zf := range inz.File { name := zf.Name if strings.HasPrefix(name, \"/\") { name = \".\" + name } name = path.Clean(name) switch name { case \"AndroidManifest.xml\": return FileTypeAPK case \"AppManifest.xaml\": return FileTypeXAP case \"AppxManifest.xml\", \"AppxMetadata/AppxBundleManifest.xml\": return FileTypeAPPX case \"extension.vsixmanifest\": return FileTypeVSIX case \"META-INF/MANIFEST.MF\": isJar = true } switch { case strings.HasSuffix(name, \".app/Info.plist\"): return FileTypeIPA case strings.HasSuffix(name, \".app/Contents/Info.plist\"): return FileTypeIPA } } if isJar { return FileTypeJAR } return FileTypeUnknown }"),
   ("Decompress", "func Decompress(r io.Reader, ctype CompressionType) (io.Reader, error) { switch ctype { case CompressedNone: return r, nil case CompressedGzip: return gzip.NewReader(r) case CompressedXz: return xz.NewReader(r, 0) default: return nil, errors.New(\"invalid compression type\") } }")
 ]
